@@ -182,6 +182,11 @@ def run_routes(t):
             s.add('let r%d add q%d shift' % (i, i))
         s.add('sp.new S9 tp', N + 1, *['r%d' % i for i in range(N + 1)], N + 1, *pz.flatP(), pz.bcname)
         s.add('sp.update S9 tp', N + 1, *q, N + 1, *P, pr.bcname)
+        # overload switches on a built object: time points first then durations + start time, and the other way round
+        s.add('sp.new S10 tp', N + 1, *['r%d' % i for i in range(N + 1)], N + 1, *pz.flatP(), pz.bcname)
+        s.add('sp.update S10 dur', N, *pr.h, N + 1, *P, pr.t0, pr.bcname)
+        s.add('sp.new S11 dur', N, *pz.h, N + 1, *pz.flatP(), pz.t0, pz.bcname)
+        s.add('sp.update S11 tp', N + 1, *q, N + 1, *P, pr.bcname)
         s.add('sp.new S1 dur', N, *pr.h, N + 1, *P, pr.t0, pr.bcname)
         s.add('sp.default S4')
         s.add('sp.update S4 dur', N, *pr.h, N + 1, *P, pr.t0, pr.bcname)
@@ -193,13 +198,15 @@ def run_routes(t):
         s.add('bc Z 0')
         s.add('sp.new S6 dur', N, *pr.h, N + 1, *P, pr.t0, '-')
         s.add('sp.new S7 dur', N, *pr.h, N + 1, *P, pr.t0, 'Z')
-        for nm in ('S1', 'S2', 'S3', 'S4', 'S5', 'S6', 'S7', 'S8', 'S9'):
+        for nm in ('S1', 'S2', 'S3', 'S4', 'S5', 'S6', 'S7', 'S8', 'S9', 'S10', 'S11'):
             s.add('sp.coeffs', nm, 'c' + nm)
         s.add('sp.meta S2 m2')
         s.add('sp.meta S5 m5')
         s.add('sp.meta S1 m1')
         s.add('sp.meta S8 m8')
         s.add('sp.meta S9 m9')
+        s.add('sp.meta S10 m10')
+        s.add('sp.meta S11 m11')
         # BC constructors
         z = ['0'] * d
         s.add('bc B2 2', *pr.bc['sv'], *pr.bc['ev'])
@@ -217,12 +224,16 @@ def run_routes(t):
                 sc.uf_eq('update(time points) == constructor(time points) c[%d,%d]' % (r, dd), 'cS5.%d.%d' % (r, dd), 'cS2.%d.%d' % (r, dd))
                 sc.uf_eq('update(same durations, other start/points/boundary) == constructor c[%d,%d]' % (r, dd), 'cS8.%d.%d' % (r, dd), 'cS1.%d.%d' % (r, dd))
                 sc.uf_eq('update(time points shifted back) == constructor(time points) c[%d,%d]' % (r, dd), 'cS9.%d.%d' % (r, dd), 'cS2.%d.%d' % (r, dd))
+                sc.uf_eq('time points, then update(durations) == constructor(durations) c[%d,%d]' % (r, dd), 'cS10.%d.%d' % (r, dd), 'cS1.%d.%d' % (r, dd))
+                sc.uf_eq('durations, then update(time points) == constructor(time points) c[%d,%d]' % (r, dd), 'cS11.%d.%d' % (r, dd), 'cS2.%d.%d' % (r, dd))
                 sc.uf_eq('defaulted boundary argument == zero boundary state c[%d,%d]' % (r, dd), 'cS6.%d.%d' % (r, dd), 'cS7.%d.%d' % (r, dd))
         E = sc.enc
         for key in ['start', 'end', 'dur'] + ['cum.%d' % i for i in range(N + 1)]:
             sc.uf_eq('re-update with the same durations and another start time: %s == constructor' % key, 'm8.' + key, 'm1.' + key)
+            sc.uf_eq('built from time points, re-updated with durations and a start time: %s == constructor' % key, 'm10.' + key, 'm1.' + key)
         sc.uf_node_eq('m8 start time == given start time', 'm8.start', g.varid[pr.t0])
-        for m in ('m2', 'm5', 'm9'):
+        sc.uf_node_eq('m10 start time == given start time', 'm10.start', g.varid[pr.t0])
+        for m in ('m2', 'm5', 'm9', 'm11'):
             sc.int_eq(m + ' segment count', m + '.nseg', N)
             sc.uf_node_eq(m + ' start time == first time point', m + '.start', g.varid['q0'])
             for i in range(N + 1):
